@@ -7,6 +7,10 @@
 //
 // Scenario fields (from KeepstorePut.tla's Gen configuration, plus extra kill points the check adds
 // for source labels the model does not know):
+//   rival2, rstop, rend  (mode none) the stalling rival: when this upload stands at rival2 a second PUT of the same
+//          block is started and stepped to ITS label rstop (so it has created its temp file); this upload then
+//          runs to its reply; then the second one is aborted (its client goes away) or finishes.  The two uploads
+//          are told apart by their request contexts (verifPointCtx, vScheduler.byCtx).
 //   ck     concretisation of corrupt_old: flip | trunc | ext | subst | empty (see vC02Corrupt)
 //   pre    none | intact_old | corrupt_old | dir (directory at the block path: rename fails)
 //          | nodir (regular file where the block directory should be: mkdir fails)
@@ -54,15 +58,18 @@ import (
 )
 
 type vC02Scn struct {
-	ID    int    `json:"id"`
-	Pre   string `json:"pre"`
-	N     int    `json:"n"`
-	Mode  string `json:"mode"`
-	Point string `json:"point"`
-	Occ   int    `json:"occ"`
-	CK    string `json:"ck"`    // corruption kind of pre = corrupt_old
-	Rival string `json:"rival"` // label at which a second PUT of the same block runs to its acknowledgement
-	Steps []struct {
+	ID     int    `json:"id"`
+	Pre    string `json:"pre"`
+	N      int    `json:"n"`
+	Mode   string `json:"mode"`
+	Point  string `json:"point"`
+	Occ    int    `json:"occ"`
+	CK     string `json:"ck"`     // corruption kind of pre = corrupt_old
+	Rival  string `json:"rival"`  // label at which a second PUT of the same block runs to its acknowledgement
+	Rival2 string `json:"rival2"` // label of this PUT at which a second PUT starts and runs up to its label RStop ...
+	RStop  string `json:"rstop"`
+	REnd   string `json:"rend"` // ... and, after this PUT has been answered, is aborted ("abort") or finishes ("finish")
+	Steps  []struct {
 		A string `json:"a"`
 		L string `json:"l"`
 	} `json:"steps"` // mode "index": whose turn it is (w = the PUT, x = GET /index), from KeepVolume.tla
@@ -149,10 +156,39 @@ func vC02Populate(root string, pre string, n int, ck string) {
 
 type vC02Notifier struct {
 	*httptest.ResponseRecorder
-	ch chan bool
+	ch    chan bool
+	mu    sync.Mutex
+	wrote bool // the handler wrote a status line or body
+	gone  bool // the client was made to go away (cancel point fired)
 }
 
 func (n *vC02Notifier) CloseNotify() <-chan bool { return n.ch }
+
+func (n *vC02Notifier) WriteHeader(code int) {
+	n.mu.Lock()
+	n.wrote = true
+	n.mu.Unlock()
+	n.ResponseRecorder.WriteHeader(code)
+}
+
+func (n *vC02Notifier) Write(b []byte) (int, error) {
+	n.mu.Lock()
+	n.wrote = true
+	n.mu.Unlock()
+	return n.ResponseRecorder.Write(b)
+}
+
+// status: what the client got.  httptest's recorder says 200 until told otherwise; a handler that returns without
+// writing anything does answer 200 to a client that is still there, but a client that has gone away has received
+// nothing: 0.
+func (n *vC02Notifier) status() int {
+	n.mu.Lock()
+	defer n.mu.Unlock()
+	if !n.wrote && n.gone {
+		return 0
+	}
+	return n.Code
+}
 
 var vC02BlockRe = regexp.MustCompile(`^[0-9a-f]{32}$`)
 
@@ -404,6 +440,9 @@ func vC02RunRival(srv *vksServer, scn *vC02Scn, rec *vC02Notifier, req *http.Req
 		case "cancel":
 			vHook.cancelLabel, vHook.cancelN = scn.Point, vHook.seen[scn.Point]+1
 			vHook.cancelFn = func() {
+				rec.mu.Lock()
+				rec.gone = true
+				rec.mu.Unlock()
 				select {
 				case rec.ch <- true:
 				default:
@@ -421,6 +460,110 @@ func vC02RunRival(srv *vksServer, scn *vC02Scn, rec *vC02Notifier, req *http.Req
 	vHook.sched = nil
 	vHook.mu.Unlock()
 	return reached
+}
+
+// vC02RunRival2: see the scenario fields rival2 / rstop / rend.  Returns whether the schedule could be applied and
+// the status of the second upload.
+func vC02RunRival2(srv *vksServer, scn *vC02Scn, rec *vC02Notifier, req *http.Request, log func(map[string]interface{})) bool {
+	block := vC02Block(scn.N)
+	hash := vksHash(block)
+	sched := vNewScheduler(map[string]string{"Compare": "w", "Touch": "w", "WriteBlock": "w"}, nil, srv.volIndex())
+	sched.byCtx = true
+	vHook.mu.Lock()
+	vHook.sched = sched
+	vHook.mu.Unlock()
+	defer func() {
+		vHook.mu.Lock()
+		vHook.sched = nil
+		vHook.mu.Unlock()
+	}()
+	stepTo := func(actor, label string) bool {
+		for i := 0; i < 1000; i++ {
+			l, _ := sched.await(actor, 20*time.Second)
+			if l == "done" || l == "" {
+				return false
+			}
+			if l == label {
+				return true
+			}
+			sched.release(actor)
+		}
+		return false
+	}
+	fdone := make(chan struct{})
+	go func() {
+		srv.h.ServeHTTP(rec, req)
+		sched.actorDone("w1")
+		close(fdone)
+	}()
+	applied := stepTo("w1", scn.Rival2)
+	rec2 := &vC02Notifier{ResponseRecorder: httptest.NewRecorder(), ch: make(chan bool, 1)}
+	rdone := make(chan struct{})
+	if applied {
+		req2, _ := http.NewRequest("PUT", "/"+hash, bytes.NewReader(block))
+		req2.Header.Set("Authorization", "OAuth2 "+vksSysToken)
+		go func() {
+			srv.h.ServeHTTP(rec2, req2)
+			sched.actorDone("w2")
+			close(rdone)
+		}()
+		applied = stepTo("w2", scn.RStop)
+	}
+	// the first upload runs to its reply (the second one is parked, or over)
+	for i := 0; i < 1000; i++ {
+		l, _ := sched.await("w1", 5*time.Second)
+		if l == "done" {
+			break
+		}
+		if l == "" { // blocked by something the second one holds: let everything go
+			applied = false
+			sched.freeAll()
+			break
+		}
+		sched.release("w1")
+	}
+	<-fdone
+	log(map[string]interface{}{"ev": "outcome", "kind": "reply", "st": rec.status()})
+	select {
+	case <-rdone: // never started or already over
+		if !applied {
+			sched.freeAll()
+			return false
+		}
+	default:
+	}
+	if applied && scn.REnd == "abort" {
+		select {
+		case rec2.ch <- true:
+		default:
+		}
+		time.Sleep(5 * time.Millisecond)
+	}
+	sched.freeAll()
+	select {
+	case <-rdone:
+	case <-time.After(30 * time.Second):
+		return false
+	}
+	if st := rec2.status(); applied && st >= 200 && st < 300 {
+		log(map[string]interface{}{"ev": "rivalack", "st": st})
+	}
+	return applied
+}
+
+// vC02Base samples the number of goroutines once it has stopped changing (handlers stopped by an earlier
+// scenario let their workers exit asynchronously).
+func vC02Base() int {
+	n := runtime.NumGoroutine()
+	for same := 0; same < 5; {
+		time.Sleep(time.Millisecond)
+		if m := runtime.NumGoroutine(); m == n {
+			same++
+		} else {
+			n, same = m, 0
+		}
+	}
+	return n
 }
 
 func vC02WaitQuiet(base int) bool {
@@ -561,7 +704,7 @@ func TestVerifC02(t *testing.T) {
 		events := []map[string]interface{}{}
 		log := func(ev map[string]interface{}) { events = append(events, ev) }
 		reset := map[string]interface{}{"ev": "reset", "scn": scn.ID, "pre": scn.Pre, "n": scn.N, "mode": scn.Mode,
-			"point": scn.Point, "occ": scn.Occ, "ck": scn.CK, "rival": scn.Rival}
+			"point": scn.Point, "occ": scn.Occ, "ck": scn.CK, "rival": scn.Rival, "rival2": scn.Rival2, "rstop": scn.RStop, "rend": scn.REnd}
 		log(reset)
 		log(map[string]interface{}{"ev": "start", "pre": scn.Pre})
 		block := vC02Block(scn.N)
@@ -594,6 +737,9 @@ func TestVerifC02(t *testing.T) {
 			case "cancel":
 				vHook.cancelLabel, vHook.cancelN = scn.Point, scn.Occ
 				vHook.cancelFn = func() {
+					rec.mu.Lock()
+					rec.gone = true
+					rec.mu.Unlock()
 					select {
 					case rec.ch <- true:
 					default:
@@ -608,7 +754,7 @@ func TestVerifC02(t *testing.T) {
 			vHook.mu.Unlock()
 			if scn.Mode == "index" {
 				os.MkdirAll(filepath.Join(srv.roots[0], hash[:3]), 0755) // the model's IndexTo finds the block directory
-				base := runtime.NumGoroutine()
+				base := vC02Base()
 				st, entries := vC02RunIndexSchedule(srv, scn, reset)
 				reset["reached"] = true
 				log(map[string]interface{}{"ev": "outcome", "kind": "reply", "st": st})
@@ -627,9 +773,11 @@ func TestVerifC02(t *testing.T) {
 			req, _ := http.NewRequest("PUT", "/"+hash, bytes.NewReader(block))
 			req = req.WithContext(context.Background())
 			req.Header.Set("Authorization", "OAuth2 "+vksSysToken)
-			base := runtime.NumGoroutine()
+			base := vC02Base()
 			rivalRan := true
-			if scn.Rival != "" {
+			if scn.Rival2 != "" {
+				rivalRan = vC02RunRival2(srv, scn, rec, req, log)
+			} else if scn.Rival != "" {
 				rivalRan = vC02RunRival(srv, scn, rec, req, log)
 			} else {
 				srv.h.ServeHTTP(rec, req)
@@ -643,7 +791,9 @@ func TestVerifC02(t *testing.T) {
 				labels[i] = strings.SplitN(labels[i], "@", 2)[0]
 			}
 			reset["labels"] = labels
-			log(map[string]interface{}{"ev": "outcome", "kind": "reply", "st": rec.Code})
+			if scn.Rival2 == "" { // (vC02RunRival2 logs the outcome itself, before the rival's end)
+				log(map[string]interface{}{"ev": "outcome", "kind": "reply", "st": rec.status()})
+			}
 			if !vC02WaitQuiet(base) {
 				reset["infra"] = "writer goroutine did not finish"
 			}
